@@ -34,23 +34,23 @@ CHECKS = {
    note="Trusted: the reference placement / block maps (shown by C07/C08 to agree with the library's writer); the undamaged symbol is produced by the library's own writer.",
    tech="fault enumeration (exhaustive small patterns / positions) + property-based fault-set generation with a round-trip oracle"),
  "C13": dict(cat="exploration", ref="DESIGN.md §4 C13",
-   text="The chosen QR version is compared with the minimum computed from the standard's capacity formulae for every mode x level at every per-version boundary (quick) and every length 1..cap(40)+1 (thorough), forced versions accepted/refused exactly; Data Matrix lookup is compared with the first admissible row of the reference table for every codeword count x shape x (min,max) pair, and at writer level with digit strings of known codeword count.",
+   text="The chosen QR version is compared with the minimum computed from the standard's capacity formulae for every mode x level at every per-version boundary (quick) and every length 1..cap(40)+1 (thorough), forced versions accepted/refused exactly; Data Matrix lookup is compared with the first admissible row of the reference table for every codeword count x shape x (min,max) pair, and at writer level with digit strings of known codeword count. The same content is encoded repeatedly in one process under changing MIN/MAX_SIZE hints.",
    note="Trusted: capacity formulae in internal/qrref and the attribute table in internal/dmref, both anchored to the published figures (7089/4296/2953/1817, 1558) at the start of every run.",
    tech="exhaustive enumeration against an independently computed minimum"),
  "C02": dict(cat="exploration", ref="DESIGN.md §4 C02",
-   text="Grammar-based property testing: Latin-1 texts built from runs over ten character classes (so that every encodation mode, latch, unlatch and end-of-data rule is reached), macro envelopes, shape / min / max hints and forced sizes, checked at codeword level (hundreds of thousands of cases) and through the full writer -> image -> pure-barcode reader pipeline for all 30 sizes; oracle = termination (watchdog with isolated re-run), exact round trip, refusal of non-Latin-1 text, acceptance whenever the plain ASCII encodation + 16 codewords fits. Also: every run length 1..1555 of extended bytes (alone and embedded), every tail of <= 5 characters after each mode prefix, and histories through one writer and one reader instance.",
+   text="Grammar-based property testing: Latin-1 texts built from runs over ten character classes (so that every encodation mode, latch, unlatch and end-of-data rule is reached), macro envelopes, shape / min / max hints and forced sizes, checked at codeword level (hundreds of thousands of cases) and through the full writer -> image -> pure-barcode reader pipeline for all 30 sizes; oracle = termination (watchdog with isolated re-run), exact round trip, refusal of non-Latin-1 text, acceptance whenever the plain ASCII encodation + 16 codewords fits. Also: every run length 1..1555 of extended bytes (alone and embedded), every tail of <= 5 characters after each mode prefix, and histories through one writer and one reader instance. Macro envelopes and their near-misses are enumerated (13 heads x 9 tails x 13 bodies); run lengths around every symbol capacity are part of the quick tier; a text of extended characters only must be accepted whenever its single Base-256 run fits.",
    note="Trusted: the ASCII-length sufficient condition for 'fits'; x/text is not involved. The check cannot show optimality of the encodation, only correctness of what is produced.",
    tech="grammar-based round-trip property testing (rapid) with a termination watchdog"),
  "C03": dict(cat="exploration", ref="DESIGN.md §4 C03",
-   text="Round-trip property testing per symbology with content generators that follow the property's quantifier (lengths, alphabets, code sets, guard pairs), geometry (width up to 8x, height 0..80, margin >= default), the multi-format UPC/EAN reader, a rejection side for malformed contents, and the complete UPC-E (2*10^6) and EAN-8 (10^7) number spaces in the thorough tier. Also: all ASCII pairs / all ITF lengths, every order of POSSIBLE_FORMATS for the multi reader, and histories through one writer and one reader per symbology with failed reads in between.",
+   text="Round-trip property testing per symbology with content generators that follow the property's quantifier (lengths, alphabets, code sets, guard pairs), geometry (width up to 8x, height 0..80, margin >= default), the multi-format UPC/EAN reader, a rejection side for malformed contents, and the complete UPC-E (2*10^6) and EAN-8 (10^7) number spaces in the thorough tier. Also: all ASCII pairs / all ITF lengths, every order of POSSIBLE_FORMATS for the multi reader, and histories through one writer and one reader per symbology with failed reads in between. Further enumerations: Code 128 forced code sets with every character value (refused or read back), every content length 1..84 of the variable-length symbologies, UPC-A numbers built to look like an EAN-8 under all 24 format orders of the multi-format reader.",
    note="Trusted: the independent mod-10 / UPC-E expansion formulae in internal/onedref for canonical forms. One known finding (UPC-E default margin vs. the reader's trailing quiet zone) is listed in known_findings.json and steered around by construction (counted).",
    tech="round-trip property-based testing (rapid) + exhaustive number-space enumeration"),
  "C10": dict(cat="fault_enumeration", ref="DESIGN.md §4 C10",
-   text="Fault enumeration over check characters: every single-digit substitution (9*len) of UPC/EAN numbers is carried by an independently constructed symbol and must be rejected unless the independent predicate says it verifies; every replacement of one Code 128 / Code 93 symbol character by every other data value must be rejected; writer check characters are compared with the mod-103 / mod-47 formulae through pattern tables typed from the standards; wrong supplied check digits must be refused; UPC-E expansion vs. zero suppression over the whole number space; all EAN-2 add-ons and EAN-5 add-ons x all 32 parity patterns. Add-on reads are also run as histories (refused add-on, then a valid one) on a single reader instance.",
+   text="Fault enumeration over check characters: every single-digit substitution (9*len) of UPC/EAN numbers is carried by an independently constructed symbol and must be rejected unless the independent predicate says it verifies; every replacement of one Code 128 / Code 93 symbol character by every other data value must be rejected; writer check characters are compared with the mod-103 / mod-47 formulae through pattern tables typed from the standards; wrong supplied check digits must be refused; UPC-E expansion vs. zero suppression over the whole number space; all EAN-2 add-ons and EAN-5 add-ons x all 32 parity patterns. Add-on reads are also run as histories (refused add-on, then a valid one) on a single reader instance. Check-digit verdicts are also taken as histories on one reader instance (differential against a fresh reader).",
    note="Trusted: internal/onedref (UPC/EAN codes, parity tables, Code 128 / Code 93 tables with structural self-checks, checksum formulae). One known finding (upside-down UPC-E misread) is listed in known_findings.json with a matcher specific to that root cause.",
    tech="fault enumeration over substitutions with independently constructed symbols and an independent validity predicate"),
  "C09": dict(cat="exploration", ref="DESIGN.md §4 C09",
-   text="Generated poses (integer scale, four rotations, QR mirroring, independent padding per side, nil / TRY_HARDER hints) of writer output for QR, Data Matrix and the nine 1-D symbologies are read through the locating path; the result must be the encoded content or a ReaderException, never other content. The positive clauses (1-D upside down with ORIENTATION 180, sideways with TRY_HARDER, transposed QR matrix flagged mirrored) are asserted on the domains the property states. Success rates per symbology and rotation are reported so that the negative guarantee is not satisfied vacuously. Every successful read's ORIENTATION metadata must be a quarter turn within the documented [0,360) that matches the rotation applied.",
+   text="Generated poses (integer scale, four rotations, QR mirroring, independent padding per side, nil / TRY_HARDER hints) of writer output for QR, Data Matrix and the nine 1-D symbologies are read through the locating path; the result must be the encoded content or a ReaderException, never other content. The positive clauses (1-D upside down with ORIENTATION 180, sideways with TRY_HARDER, transposed QR matrix flagged mirrored) are asserted on the domains the property states. Success rates per symbology and rotation are reported so that the negative guarantee is not satisfied vacuously. Every successful read's ORIENTATION metadata must be a quarter turn within the documented [0,360) that matches the rotation applied. Transposed symbols are produced for all 32 (level, mask) formats; at image level the result points of the mirrored read must be the reflections of those of the upright read.",
    note="Statistical by nature: RS/BCH/check digits make a misread rare by design; the search is over poses and payloads, not over all images. UPC-E upside-down misreads would be matched against the known-finding class shared with C10.",
    tech="metamorphic property-based testing over image poses (rapid)"),
  "C14": dict(cat="exploration", ref="DESIGN.md §4 C14",
@@ -58,15 +58,15 @@ CHECKS = {
    note="Trusted: the 30-line formula implementation in checks/c14 (the property's own formula).",
    tech="exhaustive small-range enumeration + property-based testing against a formula oracle"),
  "C15": dict(cat="exploration", ref="DESIGN.md §4 C15",
-   text="Every registered charset under every name and alias: single-byte repertoires exhaustively, multi-byte sets sampled, through the QR writer/reader with the ECI designator checked against the AIM assignment list typed in the check and the byte segment against x/text; registry laws over all values and names; every ECI number up to 1100 in all three designator forms (sampled to 999999) in hand-built streams; decode-side hints; unhinted UTF-8 adversarial for the guesser. Each designated symbol is re-read with a conflicting decode-side CHARACTER_SET hint (the designator must win).",
+   text="Every registered charset under every name and alias: single-byte repertoires exhaustively, multi-byte sets sampled, through the QR writer/reader with the ECI designator checked against the AIM assignment list typed in the check and the byte segment against x/text; registry laws over all values and names; every ECI number up to 1100 in all three designator forms (sampled to 999999) in hand-built streams; decode-side hints; unhinted UTF-8 adversarial for the guesser. Each designated symbol is re-read with a conflicting decode-side CHARACTER_SET hint (the designator must win). Every double-byte Shift_JIS character outside the Kanji-mode ranges is written as all-double-byte text.",
    note="Trusted: x/text encoders/decoders as the oracle for what is representable (not for gozxing's behaviour) and the AIM number table typed in checks/c15.",
    tech="round-trip property testing + exhaustive registry / ECI-number enumeration against an independent table"),
  "C19": dict(cat="exploration", ref="DESIGN.md §4 C19",
-   text="The transform is compared with an independent projective solve in 256-bit floats over rapid-generated convex quadrilateral pairs; sampled grids are compared cell by cell with the image pixel under the independently transformed cell centre; the nudge rules are enumerated on all four sides, both row ends and 11 distances, directly and through sampling with translated / sheared grids; all-black images detect any read outside the image. Grid-side reference points are also re-listed from other corners, reversed, or general convex quadrilaterals; twisted image-side quadrilaterals (as misdetected symbols give) must yield NotFound or image pixels only.",
+   text="The transform is compared with an independent projective solve in 256-bit floats over rapid-generated convex quadrilateral pairs; sampled grids are compared cell by cell with the image pixel under the independently transformed cell centre; the nudge rules are enumerated on all four sides, both row ends and 11 distances, directly and through sampling with translated / sheared grids; all-black images detect any read outside the image. Grid-side reference points are also re-listed from other corners, reversed, or general convex quadrilaterals; twisted image-side quadrilaterals (as misdetected symbols give) must yield NotFound or image pixels only. Rows with several consecutive points inside an edge strip.",
    note="Trusted: the 8x8 Gaussian elimination in big.Float in checks/c19. Cells within 1e-6 of a pixel boundary are skipped; degenerate quadrilaterals are not generated.",
    tech="property-based testing against an extended-precision reference + enumerated edge-rule cases"),
  "C17": dict(cat="exploration", ref="DESIGN.md §4 C17",
-   text="Model-based testing of luminance views: eight source kinds x generated sizes / pixel contents x sequences of up to six crop / invert / rotate operations (valid and invalid) against a naive 2-D array model, every row and the full matrix compared after each step; bilevel images (incl. rendered symbols of all writers, sizes around the 40-pixel switch) through both binarisers and the BinaryBitmap API against the exact black-pixel model. Caller-supplied luminance / bit rows arrive dirty.",
+   text="Model-based testing of luminance views: eight source kinds x generated sizes / pixel contents x sequences of up to six crop / invert / rotate operations (valid and invalid) against a naive 2-D array model, every row and the full matrix compared after each step; bilevel images (incl. rendered symbols of all writers, sizes around the 40-pixel switch) through both binarisers and the BinaryBitmap API against the exact black-pixel model. Caller-supplied luminance / bit rows arrive dirty. Structured bilevel pictures (solid blocks, all black / white, black frames >= 40 px); every crop rectangle around small planar-YUV data; crops with exactly one negative coordinate.",
    note="Trusted: the naive model in checks/c17. Colour-to-luminance conversion is only checked at opaque black / white / gray; single-colour rows may be rejected or binarised exactly.",
    tech="model-based property testing (rapid) against a naive array model"),
  "C11": dict(cat="exploration", ref="DESIGN.md §4 C11",
@@ -74,7 +74,7 @@ CHECKS = {
    note="Trusted: internal/azref (tables, stuffing, RS over own GF arithmetic, mode message, layout), validated by the unchanged tree decoding all sizes. One known finding (centre estimate of sparse symbols) is listed with a matcher that recomputes the library's own first-stage centre estimate.",
    tech="property-based testing with an independent reference encoder as symbol source"),
  "C06": dict(cat="exploration", ref="DESIGN.md §4 C06",
-   text="Structured generators drive every image-level reader configuration, the three matrix decoders, the three bit-stream parsers and all row decoders with random, structured and mutated-valid inputs and rapid hint maps, under recover() and a watchdog; the oracle is totality: returns, result xor error, documented error kinds for image readers. Native coverage-guided fuzz targets for the parsers run in the thorough tier.",
+   text="Structured generators drive every image-level reader configuration, the three matrix decoders, the three bit-stream parsers and all row decoders with random, structured and mutated-valid inputs and rapid hint maps, under recover() and a watchdog; the oracle is totality: returns, result xor error, documented error kinds for image readers. Native coverage-guided fuzz targets for the parsers run in the thorough tier. The QR bit-stream grammar has a well-formed mode (correct count fields, FNC1 markers, '%' over-weighted) besides the hostile one; 1-D rows are also re-assembled from a valid symbol's own characters (down to start + stop only).",
    note="Totality over generated inputs only; a deep parser state can be missed. Hint values are well-typed. Suspected hangs are re-run alone with a 120 s limit before being reported.",
    tech="robustness property testing (rapid) + native go fuzzing with a totality oracle"),
  "C12": dict(cat="exploration", ref="DESIGN.md §4 C12",
@@ -82,7 +82,7 @@ CHECKS = {
    note="Totality over generated inputs only. The symbol's own dimensions are obtained from the same writer at 0x0 / margin 0 (QR: Encoder_encode) for the same content and non-geometry hints.",
    tech="robustness property testing (rapid) with a totality and size oracle"),
  "C18": dict(cat="exploration", ref="DESIGN.md §4 C18",
-   text="Schedule exploration under the Go race detector: rapid-generated workloads of 2..64 goroutines with private reader / writer / codec instances over all symbologies, varying GOMAXPROCS, start staggering and yield points; any race report is a violation, and every concurrent result must equal the result of the same operation run alone afterwards. Per-family in-flight counters measure how many configurations really overlapped on the same package-level tables. Workloads include QR symbols with ECI designators in nine charsets (stateful x/text decoders).",
+   text="Schedule exploration under the Go race detector: rapid-generated workloads of 2..64 goroutines with private reader / writer / codec instances over all symbologies, varying GOMAXPROCS, start staggering and yield points; any race report is a violation, and every concurrent result must equal the result of the same operation run alone afterwards. Per-family in-flight counters measure how many configurations really overlapped on the same package-level tables. Workloads include QR symbols with ECI designators in nine charsets (stateful x/text decoders). Further op kinds: private multi-format UPC/EAN readers built with and without format hints.",
    note="The race detector only reports races on executed paths and interleavings that occurred; rare interleavings on paths no workload drives stay unseen. Exploration is the honest level; model checking the shared state is outside this technique family.",
    tech="randomised concurrent workloads under -race with a sequential-equivalence oracle"),
 }
